@@ -293,6 +293,11 @@ func (s *vhTabState) vhCheckInvariant() {
 			}
 		}
 		vsAssert(bucketSubnets[0] <= bucketIPLimit && bucketSubnets[1] <= bucketIPLimit, "at-most-2-nodes-per-slash24-in-a-bucket")
+		// the inductive part of the address invariant: the bucket's address set accounts for every
+		// non-LAN member (it may over-count, it must never under-count - otherwise later adds
+		// slip past the limit)
+		bs := vhSetState(&b.ips)
+		vsAssert(int(bs[0]) >= bucketSubnets[0] && int(bs[1]) >= bucketSubnets[1], "bucket-address-set-accounts-for-every-member")
 		for _, tn := range b.entries {
 			onFast := vhIndexOf(tab.revalidation.fast.nodes, tn) >= 0
 			onSlow := vhIndexOf(tab.revalidation.slow.nodes, tn) >= 0
@@ -304,4 +309,6 @@ func (s *vhTabState) vhCheckInvariant() {
 		}
 	}
 	vsAssert(tableSubnets[0] <= tableIPLimit && tableSubnets[1] <= tableIPLimit, "at-most-10-nodes-per-slash24-in-the-table")
+	ts := vhSetState(&tab.ips)
+	vsAssert(int(ts[0]) >= tableSubnets[0] && int(ts[1]) >= tableSubnets[1], "table-address-set-accounts-for-every-member")
 }
